@@ -320,7 +320,7 @@ class CrashMachine(Machine):
     name = "crash"
     properties = ("C19",)
     level = "fault_enumeration"
-    runs = {"quick": 160, "thorough": 6000}
+    runs = {"quick": 96, "thorough": 6000}
     run_timeout = 300.0
     rule = (
         "one run = one seeded workload (parallelise with a logging function, or scan.time_course / scan.steady_state; "
